@@ -56,8 +56,11 @@ def _prop_case(sel, r):
     carrier = ["metadata", "axes2d", "pairs", "xaxis", "yaxis"][sel["carrier"]]
     big = r.random() < 0.25
     steps = []
+    same_dz = r.random() < 0.5  # same distance, different tilt: a propagator cache keyed without the tilt would be stale
     for _ in range(nsteps):
         dz = float(r.uniform(0.5, 40.0)) if r.random() < 0.8 else float(-r.uniform(0.5, 20.0))
+        if same_dz and steps:
+            dz = steps[0][0]
         sign = SIGNS[sel["sign"]] if (carrier != "metadata" or r.random() < 0.6) else SIGNS[int(r.integers(len(SIGNS)))]
         steps.append([dz] + _tilt(r, sign, big))
     case = dict(family="propagate", gpts=list(gpts), extent=list(extent), energy=float(r.uniform(3e4, 3e5)),
